@@ -136,6 +136,9 @@ def op_strategies(nparts, ngroups, profile):
         'unfreeze': st.tuples(st.just('unfreeze'), idx).map(list),
         'bl': st.tuples(st.just('bl'), idx, st.booleans()).map(list),
         'renew': st.tuples(st.just('renew'), idx).map(list),
+        # the reboot slot of a server is assigned again (presence change)
+        'reslot': st.tuples(st.just('reslot'), idx, st.sampled_from(
+            [None, 0, 0, 1, 1, 2, 5, 7, 20])).map(list),
         'idg': st.tuples(st.just('idg'), st.integers(0, max(0, ngroups - 1)),
                          st.integers(0, 4)).map(list),
         'rmidg': st.tuples(st.just('rmidg'),
@@ -268,7 +271,7 @@ DEFAULT_WEIGHTS = {
     'readd': 1, 'down': 2, 'up': 2, 'downseq': 0, 'freezeflip': 0,
     'orphanbl': 0, 'orphanrm': 0, 'rackshift': 0, 'orphanidg': 0, 'stalemark': 0, 'renewearly': 0,
     'clone2': 0, 'freezedown': 0, 'fdown': 0, 'fill': 0, 'fillclone2': 0, 'freezepress': 0, 'notupmove': 0, 'freezework': 0, 'renewold': 0, 'freeze': 1, 'unfreeze': 1, 'bl': 1,
-    'renew': 1, 'idg': 1, 'rmidg': 1, 'strat': 1, 'adv': 2, 'adv_ret': 1,
+    'renew': 1, 'reslot': 1, 'idg': 1, 'rmidg': 1, 'strat': 1, 'adv': 2, 'adv_ret': 1,
     'tick': 1, 'cycle': 8,
 }
 
